@@ -178,7 +178,13 @@ func (cr *clRun) issueAdmin(i int, op Op) {
 	})
 	// management calls are synchronous for the operator; I/O keeps flowing meanwhile
 	if !cr.pump(hangLimit, func() bool { return a.done }) {
-		cr.viol("C14", "management-request-hung", "admin op %s %s did not return within %v", a.kind, a.arg, hangLimit)
+		// C14's clause ("no request leaves the process deadlocked"); when a replica fault was injected it is
+		// C05's as well ("the failure of a minority ... neither surfaces as an I/O error"): the volume is wedged
+		prop := "C14"
+		if cr.s.Prop == "C05" && cr.faultsActive {
+			prop = "C05"
+		}
+		cr.viol(prop, "management-request-hung", "admin op %s %s did not return within %v (faults injected so far: %v)", a.kind, a.arg, hangLimit, cr.faultsActive)
 		return
 	}
 	cr.note(a.kind, okstr(a.err))
